@@ -269,4 +269,8 @@ def run(ctx):
         res.notes.append("closure of fit(): " + ", ".join(sorted(names)))
     res.discovery["max_hye_size_inference"] = "HyMMSBM.fit infers max_hye_size as max(len(hye) for hye in hypergraph); iterating a Hypergraph yields (edge, id) items, so the value is always 2 (K-LEN: len() of a (nodes, id) pair). Outside the clauses claimed for C15; not repaired."
     res.assumptions += ["numpy arithmetic `a / b`, `a * b` allocates a new array (only augmented assignment, element stores and out= are in-place)"]
+    with res.guard("general lint pack over the property's files"):
+        from ..lints import check_pack
+
+        check_pack(ctx, res, "C15")
     return res
